@@ -47,6 +47,7 @@ def rundir(R):
 def translate(R):
     """schemas from the tree -> GenSchemas.v (write if changed) + schemas.json for the harness. Returns pkgs or None."""
     pkgs, err = codecgen.schemas()
+    drain_notes(R)
     if pkgs is None:
         R.proof_problems.append("schema translation failed: " + err[-600:])
         return None
@@ -123,6 +124,7 @@ def build(R, pkgs):
         shutil.copy(exe, rexe)
     hexe = os.path.join(rundir(R), "h.test")
     ok, log = codecgen.build_harness(pkgs, hexe)
+    drain_notes(R)
     if not ok:
         R.proof_problems.append("Go harness for the generated codecs no longer builds against the tree: " + log[-600:])
         R.log(log[-2000:])
@@ -130,18 +132,26 @@ def build(R, pkgs):
     return rexe, hexe
 
 
+def drain_notes(R):
+    while codecgen.WALL_NOTES:
+        m = codecgen.WALL_NOTES.pop(0)
+        R.notes.append(m); R.log(m)
+
+
 def run_harness(R, hexe, test, out, env_extra, timeout=1200):
     env = vlib.goenv()
     env.update(VERIF_SCHEMAS=os.path.join(rundir(R), "schemas.json"), VERIF_SEED=str(R.seed), VERIF_OUT=out)
     env.update(env_extra)
-    rc, o = vlib.sh([hexe, "-test.run", "^" + test + "$", "-test.count=1", "-test.timeout=0"], env=env, timeout=timeout, cwd=rundir(R))
+    rc, o = codecgen._sh([hexe, "-test.run", "^" + test + "$", "-test.count=1", "-test.timeout=0"], env=env, timeout=timeout, cwd=rundir(R))
+    drain_notes(R)
     return rc, o
 
 
 def run_runner(R, rexe, trace, timeout=1800):
     with open(trace, errors="replace") as f:
         data = f.read()
-    rc, out = vlib.sh([rexe], stdin=data, timeout=timeout)
+    rc, out = codecgen._sh([rexe], stdin=data, timeout=timeout)
+    drain_notes(R)
     return rc, out, data.split("\n")
 
 
